@@ -1,5 +1,5 @@
 (** C11 — concurrent evaluations on one environment are race-free and isolated. *)
-From Lisp Require Import Base Value Env EnvProofs Lockset LocksetProofs PinsCommon PinsEnv.
+From Lisp Require Import Base Value Env EnvProofs Lockset LocksetProofs MutexProofs PinsCommon PinsEnv.
 From Lisp.Gen Require Import ConcActions.
 
 (** RACE FREEDOM OF SCOPES.  On the action lists regenerated from env/env.go at every run: every
@@ -23,6 +23,26 @@ Theorem C11_env_accesses_guarded : forall name code, In (name, code) env_all ->
   exists m, forall tr r, LocksetProofs.run (parse code) tr r ->
     accesses_guarded env_shared (final_table env_shared env_all) (mkL m None) tr.
 Proof. exact (all_fn_ok_guarded env_shared env_all env_all_fn_ok). Qed.
+
+(** ... and from that discipline, race freedom: ANY number of threads, each running ANY path of ANY
+    entry point of env.go against one scope whose RWMutex is exclusive for writers, shared for
+    readers and blocking — under EVERY schedule a thread about to write the bindings map never
+    coexists with another thread about to read or write it *)
+Theorem C11_scope_race_free : forall traces sched t u tht thu,
+  (forall tr, In tr traces -> env_entry_path tr) ->
+  let tbl := final_table env_shared env_all in
+  let s := grun env_shared tbl (ginit traces) sched in
+  nth_error (g_threads s) t = Some tht -> nth_error (g_threads s) u = Some thu ->
+  next_is_write env_shared tht -> next_is_access env_shared thu -> t = u.
+Proof. exact env_scope_race_free. Qed.
+
+(** (the general form: whatever the code, monitor-accepted traces are race free) *)
+Theorem C11_discipline_implies_race_freedom : forall shared tbl traces sched t u tht thu,
+  (forall tr, In tr traces -> exists st', mon shared tbl (mkL MFree None) tr = Some st' /\ ret_ok MFree st' = true) ->
+  let s := grun shared tbl (ginit traces) sched in
+  nth_error (g_threads s) t = Some tht -> nth_error (g_threads s) u = Some thu ->
+  next_is_write shared tht -> next_is_access shared thu -> t = u.
+Proof. exact discipline_implies_race_freedom. Qed.
 
 (** ISOLATION OF LOCAL SCOPES (evaluator model).  A binding goes into exactly one frame; *)
 Theorem C11_write_is_local : forall env key v st o st',
@@ -53,6 +73,8 @@ Proof. exact foreign_scope_invisible. Qed.
 Print Assumptions C11_env_lock_discipline.
 Print Assumptions C11_analysis_sound.
 Print Assumptions C11_env_accesses_guarded.
+Print Assumptions C11_scope_race_free.
+Print Assumptions C11_discipline_implies_race_freedom.
 Print Assumptions C11_write_is_local.
 Print Assumptions C11_new_scope_is_fresh.
 Print Assumptions C11_lookup_reads_own_chain.
